@@ -463,6 +463,10 @@ def e2e_age(ctx, sb):
     cases.append(([[NOW - 3 * 86400], []], 86400, "1d"))                      # empty trailing group: the newest backup is in the older group
     cases.append(([[NOW - 3 * 86400], []], 7 * 86400, "7d"))
     cases.append(([[NOW - 100]], None, None))
+    # local time zones with daylight saving, the newest backup on the other side of a switch: names are local times, ages are instants
+    for zone, days in (("Europe/Berlin", 61), ("Australia/Sydney", 91)):
+        for delta in (-1800, 1800):
+            cases.append(([[NOW - days * 86400 - delta]], days * 86400, "%dd" % days, zone))
     if ctx.tier == "thorough":
         for _ in range(40):
             gs, t = [], NOW - rng.randrange(0, 40 * 86400)
@@ -476,7 +480,16 @@ def e2e_age(ctx, sb):
             cases.append((gs, k * usec, "%d%s" % (k, unit)))
     providers = ["dropbox", "yandex", "google"]
     try:
-        for n, (gs, thr, thr_s) in enumerate(cases):
+        for n, case in enumerate(cases):
+            gs, thr, thr_s = case[:3]
+            zone = case[3] if len(case) > 3 else None
+            if zone:
+                import datetime
+                import zoneinfo
+                z = zoneinfo.ZoneInfo(zone)
+
+                def local_name(t, fmt):
+                    return datetime.datetime.fromtimestamp(t, z).strftime(fmt)
             spec_groups, days, ok = [], set(), True
             for gi, g in enumerate(gs):
                 d = (g[0] - BASE_DAY) // 86400 if g else max(days | {0}) + 1 + gi
@@ -484,9 +497,12 @@ def e2e_age(ctx, sb):
                     ok = False
                     break
                 days.add(d)
-                spec_groups.append((gname(d), [{"name": time.strftime("%Y.%m.%d-%H:%M:%S", time.gmtime(t)),
+                spec_groups.append((local_name(g[0], "%Y.%m.%d") if zone and g else gname(d),
+                                    [{"name": local_name(t, "%Y.%m.%d-%H:%M:%S") if zone else time.strftime("%Y.%m.%d-%H:%M:%S", time.gmtime(t)),
                                                 "manifest": [{"unique": True, "hash": xh, "fp": [1, 2, 3], "size": 1, "path_hex": b"/p".hex()}],
                                                 "entries": [{"type": "file", "path_hex": b"p".hex(), "data_hex": b"x".hex()}]} for t in g]))
+            if zone:
+                ctx.count("e2e-age.zone." + zone)
             if not ok or [x for x, _ in spec_groups] != sorted(x for x, _ in spec_groups) or any(g != sorted(g) for g in gs) or not any(gs):
                 continue
             st = sb.path("e2e-st%d" % n)
@@ -500,7 +516,7 @@ def e2e_age(ctx, sb):
                     ns["%s/%s/%s.tar.gpg" % (cl.CLOUD_ROOT, gn, b["name"])] = {"type": "file", "content_hex": b"synced".hex()}
             emu = cl.Emu(sb.path("e2e-emu%d" % n), init={"dropbox": ns, "yandex": ns, "google": ns})
             try:
-                r = cl.run_upload(sb, emu, now=NOW, timeout=90)
+                r = cl.run_upload(sb, emu, now=NOW, timeout=90, extra_env={"TZ": zone} if zone else None)
             finally:
                 emu.stop()
             m = model.run_driver([[1301, [gs, NOW, [thr] if thr is not None else []]]])[0]
@@ -514,7 +530,7 @@ def e2e_age(ctx, sb):
             ctx.nontrivial.add(("e2e-age", str(gs), thr))
             newest = max((t for g in gs for t in g), default=None)
             want = newest is not None and thr is not None and newest <= NOW and NOW - newest >= thr
-            desc = "provider=%s groups=%s now=%d threshold=%s" % (provider, gs, NOW, thr_s)
+            desc = "provider=%s groups=%s now=%d threshold=%s zone=%s" % (provider, gs, NOW, thr_s, zone or "UTC")
             for side, text in (("local storage", local_part), ("cloud", cloud_part)):
                 alarm = "doesn't have any backup for last" in text
                 if alarm != want:
